@@ -2,7 +2,6 @@
 NA = {
     "C24": "Needs MD5/SHA-2/RC4/AES as uninterpreted functions (not built); revision 6 hashRev6 has a data-dependent loop over hash outputs.",
     "C32": "Only composePageRotation's modular arithmetic is encodable; the property is about page tree surgery on whole documents.",
-    "C36": "Only the cycle guards of outline traversal are encodable; export/import round trip runs through JSON (reflection) and whole documents.",
     "C41": "Stream plumbing kernels only; equality of stream and file outputs, JSON validity and exit status need the whole CLI process.",
     "C10": "Cancellation latency / mid-read cancellation are timing and scheduling properties; the sequential symbolic executor has no clock and no goroutines, and the 'already cancelled' half needs NewContext/readXRefTable on a whole file, which is not encodable within reach.",
     "C19": "Needs the full writer and reader on whole documents (pointer-rich heaps, bufio, Flate, thousands of calls): outside a bounded SSA executor's reach; no kernel carries the property.",
